@@ -28,7 +28,10 @@ Menu == << [lit |-> bTextCss, pat |-> 0], [lit |-> bJs, pat |-> 0], [lit |-> <<>
            [lit |-> <<>>, pat |-> 1], [lit |-> bSvg, pat |-> 0], [lit |-> bHtml, pat |-> 0],
            [lit |-> <<>>, pat |-> 2], [lit |-> <<>>, pat |-> 6] >>
 \* slot shapes: kind, type attribute (hasType), data URI media type
-Shape(k, ht, ty, mt) == [kind |-> k, hasType |-> ht, type |-> ty, mt |-> mt]
+\* body: "text" (a text token that can be minified), "empty" (no text token at all), "template" (text that contains
+\* a template delimiter while TemplateDelims is set: README "preserve context within and surrounding" - written as is)
+ShapeB(k, ht, ty, mt, b) == [kind |-> k, hasType |-> ht, type |-> ty, mt |-> mt, body |-> b]
+Shape(k, ht, ty, mt) == ShapeB(k, ht, ty, mt, "text")
 HtmlShapes == { Shape("script", FALSE, <<>>, <<>>), Shape("script", TRUE, bTextJs, <<>>), Shape("script", TRUE, bJsCharset, <<>>),
                 Shape("script", TRUE, bModule, <<>>), Shape("script", TRUE, bLdJson, <<>>), Shape("script", TRUE, bTemplate, <<>>),
                 Shape("style", FALSE, <<>>, <<>>), Shape("style", TRUE, bTextCss, <<>>), Shape("style", TRUE, bScss, <<>>),
@@ -36,11 +39,19 @@ HtmlShapes == { Shape("script", FALSE, <<>>, <<>>), Shape("script", TRUE, bTextJ
                 Shape("styleAttr", FALSE, <<>>, <<>>), Shape("onAttr", FALSE, <<>>, <<>>),
                 Shape("dataUriAttr", FALSE, <<>>, bSvg), Shape("dataUriAttr", FALSE, <<>>, bTextCss),
                 Shape("dataUriAttr", FALSE, <<>>, <<>>), Shape("dataUriAttr", FALSE, <<>>, bSvgCharset) }
+\* raw elements whose text is never handed to a minifier: typed or untyped, empty or template body
+UnconsumedShapes ==
+  { ShapeB("script", FALSE, <<>>, <<>>, "empty"), ShapeB("script", TRUE, bTextJs, <<>>, "empty"), ShapeB("script", TRUE, bModule, <<>>, "empty"),
+    ShapeB("script", TRUE, bLdJson, <<>>, "empty"), ShapeB("script", TRUE, bTemplate, <<>>, "empty"),
+    ShapeB("style", FALSE, <<>>, <<>>, "empty"), ShapeB("style", TRUE, bTextCss, <<>>, "empty"), ShapeB("style", TRUE, bScss, <<>>, "empty"),
+    ShapeB("iframe", FALSE, <<>>, <<>>, "empty"),
+    ShapeB("script", FALSE, <<>>, <<>>, "template"), ShapeB("script", TRUE, bLdJson, <<>>, "template"),
+    ShapeB("style", FALSE, <<>>, <<>>, "template"), ShapeB("style", TRUE, bScss, <<>>, "template"), ShapeB("iframe", FALSE, <<>>, <<>>, "template") }
 SvgShapes  == { Shape("svgStyleText", FALSE, <<>>, <<>>), Shape("svgStyleCdata", FALSE, <<>>, <<>>), Shape("svgStyleAttr", FALSE, <<>>, <<>>),
                 Shape("svgStyleText", TRUE, bTextCss, <<>>) }
 CssShapes  == { Shape("cssDataUri", FALSE, <<>>, bSvg), Shape("cssDataUri", FALSE, <<>>, bTextCss), Shape("cssDataUri", FALSE, <<>>, <<>>),
                 Shape("cssDataUri", FALSE, <<>>, bSvgCharset) }
-ShapesOf(h) == CASE h = "html" -> HtmlShapes [] h = "svg" -> SvgShapes [] h = "css" -> CssShapes
+ShapesOf(h) == CASE h = "html" -> HtmlShapes \cup UnconsumedShapes [] h = "svg" -> SvgShapes [] h = "css" -> CssShapes
 
 EInit == /\ RInit /\ hostKind = "none" /\ host = <<>> /\ phase = "config" /\ pc = 1 /\ sub = 0
          /\ rawTag = "none" /\ rawType = <<>> /\ enters = <<>> /\ outp = <<>> /\ status = "running"
@@ -54,8 +65,13 @@ ERegister(t, beh) ==
 ChooseHost(h) ==
   /\ phase = "config" /\ phase' = "compose" /\ hostKind' = h
   /\ UNCHANGED <<lit, pats, hist, host, pc, sub, rawTag, rawType, enters, outp, status>>
+\* (a third slot is taken from a reduced set so that three-slot hosts stay enumerable)
+ThirdShapes == { Shape("script", FALSE, <<>>, <<>>), Shape("style", FALSE, <<>>, <<>>), Shape("iframe", FALSE, <<>>, <<>>),
+                 Shape("script", TRUE, bModule, <<>>), Shape("svg", FALSE, <<>>, <<>>), Shape("styleAttr", FALSE, <<>>, <<>>),
+                 Shape("onAttr", FALSE, <<>>, <<>>), Shape("dataUriAttr", FALSE, <<>>, bSvg) } \cup SvgShapes \cup CssShapes
 AddSlot(s) ==
   /\ phase = "compose" /\ Len(host) < MaxSlots /\ s \in ShapesOf(hostKind)
+  /\ (Len(host) < 2 \/ s \in ThirdShapes)
   /\ host' = Append(host, s)
   /\ UNCHANGED <<lit, pats, hist, hostKind, phase, pc, sub, rawTag, rawType, enters, outp, status>>
 Start ==
@@ -72,10 +88,17 @@ Dispatch(mime, params) ==
             ELSE status' = status /\ outp' = Append(outp, [slot |-> pc, how |-> "minified", id |-> e.id])
 
 \* html.go: StartTag of a raw text element resets the captured type; the attribute loop captures type=
-HtmlStartTag(s) ==
-  /\ s.kind \in ElementKinds /\ sub = 0
+\* ... and a text token that can be minified follows
+HtmlStartTagText(s) ==
+  /\ s.kind \in ElementKinds /\ sub = 0 /\ s.body = "text"
   /\ rawTag' = s.kind /\ rawType' = IF s.hasType THEN s.type ELSE <<>>
   /\ sub' = 1 /\ UNCHANGED <<pc, enters, outp, status>>
+\* ... and no text reaches a minifier: the element is empty (no text token) or its text holds a template
+\* (written as is).  The captured type must not survive into the next raw element.
+HtmlStartTagNoText(s) ==
+  /\ s.kind \in ElementKinds /\ sub = 0 /\ s.body # "text"
+  /\ rawTag' = s.kind /\ rawType' = IF s.hasType THEN s.type ELSE <<>>
+  /\ sub' = 2 /\ UNCHANGED <<pc, enters, outp, status>>
 \* html.go: TextToken while rawTagHash is Script/Style/Iframe
 HtmlRawText(s) ==
   /\ s.kind \in ElementKinds /\ sub = 1
@@ -102,12 +125,12 @@ Single(s) ==
   /\ pc' = pc + 1 /\ UNCHANGED <<sub, rawTag, rawType>>
 Run ==
   /\ phase = "run" /\ status = "running" /\ pc <= Len(host)
-  /\ LET s == host[pc] IN HtmlStartTag(s) \/ HtmlRawText(s) \/ HtmlEndTag(s) \/ Single(s)
+  /\ LET s == host[pc] IN HtmlStartTagText(s) \/ HtmlStartTagNoText(s) \/ HtmlRawText(s) \/ HtmlEndTag(s) \/ Single(s)
   /\ UNCHANGED <<lit, pats, hist, hostKind, host, phase>>
 
 ENext == \/ \E t \in DOMAIN Menu, beh \in {0, 1} : ERegister(t, beh)
          \/ \E h \in {"html", "svg", "css"} : ChooseHost(h)
-         \/ \E s \in HtmlShapes \cup SvgShapes \cup CssShapes : AddSlot(s)
+         \/ \E s \in HtmlShapes \cup UnconsumedShapes \cup SvgShapes \cup CssShapes : AddSlot(s)
          \/ Start \/ Run
 ESpec == EInit /\ [][ENext]_evars
 
@@ -118,10 +141,17 @@ SlotType(i) == ExpectedType(host[i].kind, host[i].hasType, host[i].type, host[i]
 NoLeak == \A j \in DOMAIN enters :
   LET en == enters[j] t == SlotType(en.slot) IN
     en.mime = t.mime /\ en.params = t.params /\ en.id = Lookup(t.mime).id
+\* the situation "typed raw element whose text is never consumed, then an untyped raw element": the second one is
+\* dispatched by its own default (instance of NoLeak, stated separately so that its antecedent shows in coverage)
+UnconsumedTypeDoesNotLeak == \A j \in DOMAIN enters :
+  LET i == enters[j].slot IN
+    (i > 1 /\ host[i].kind \in ElementKinds /\ ~host[i].hasType /\ host[i-1].kind \in ElementKinds
+       /\ host[i-1].hasType /\ host[i-1].body # "text")
+    => enters[j].mime = (IF host[i].kind = "script" THEN bJs ELSE IF host[i].kind = "style" THEN bTextCss ELSE bHtml)
 \* exactly one nested call per processed slot that has a minifier, none for the others, in order
 Processed == IF phase # "run" THEN 0 ELSE IF sub = 2 THEN pc ELSE pc - 1
 OneEnterPerServedSlot ==
-  LET served == SelectSeq([i \in 1..Processed |-> i], LAMBDA i : Lookup(SlotType(i).mime) # None)
+  LET served == SelectSeq([i \in 1..Processed |-> i], LAMBDA i : host[i].body = "text" /\ Lookup(SlotType(i).mime) # None)
   IN [j \in DOMAIN enters |-> enters[j].slot] = served
 \* a failing nested call stops the host; nothing is entered afterwards
 FailStops == status = "failed" =>
@@ -135,7 +165,7 @@ ETypeOK == /\ phase \in {"config", "compose", "run"} /\ status \in {"running", "
 
 (* Generator: complete runs are printed: host kind, registrations (menu index*10+behaviour), shapes *)
 ShapeCode(s) ==
-  <<s.kind, IF s.hasType THEN s.type ELSE <<0>>, s.mt>>
+  <<s.kind, IF s.hasType THEN s.type ELSE <<0>>, s.mt, s.body>>
 Finished == phase = "run" /\ (status = "failed" \/ pc > Len(host))
 EEmit == Finished => PrintT(<<"EMBED", hostKind, [i \in DOMAIN hist |-> hist[i].t * 10 + hist[i].beh],
                               [i \in DOMAIN host |-> ShapeCode(host[i])]>>)
